@@ -58,10 +58,13 @@ def pres(r):
 def pev(e):
     k = e[1]
     if k == 'add': return 'EAdd %s %s' % (q(e[2]), z(e[3]))
-    if k == 'notify': return 'ENotify %s' % {'sched': 'SSched', 'clear': 'SClear', 'stop': 'SStop'}[e[2]]
+    if k == 'notify':
+        if e[2] not in ('sched', 'clear', 'stop', 'tempo'):
+            raise ValueError('notify from an unknown call site: %r' % (e,))
+        return 'ENotify %s' % {'sched': 'SSched', 'clear': 'SClear', 'stop': 'SStop', 'tempo': 'STempo'}[e[2]]
     if k == 'clearpop': return 'EClearPop %s %s' % (q(e[2]), z(e[3]))
     if k == 'qclear': return 'EQClear'
-    if k == 'tempo':
+    if k == 'tempo_done':
         if Fraction(*e[5]) * Fraction(*e[2]) != 1:
             raise ValueError('_beat_dur != 1/_tempo')
         return 'ETempo (mkTM %s %s %s)' % (q(e[2]), q(e[3]), q(e[4]))
@@ -91,6 +94,30 @@ def paev(e):
     raise ValueError('event outside the model alphabet: %r' % (e,))
 
 
+def pevs(log):
+    """tempo_req [notify tempo] tempo_done(fields)  ->  ETempo fields [ENotify STempo]
+    (the setter updates the fields first, then notifies; the fields are read back after it returned)"""
+    out, i = [], 0
+    while i < len(log):
+        e = log[i]
+        if e[1] == 'tempo_req':
+            j = i + 1
+            while j < len(log) and log[j][1] != 'tempo_done':
+                j += 1
+            if j == len(log):
+                raise ValueError('tempo change without end marker')
+            inner = log[i + 1:j]
+            if any(not (x[1] == 'notify' and x[2] == 'tempo') for x in inner):
+                raise ValueError('unexpected events inside a tempo/beats setter: %r' % (inner,))
+            out.append(pev(log[j]))
+            out.extend(pev(x) for x in inner)
+            i = j + 1
+        else:
+            out.append(pev(e))
+            i += 1
+    return out
+
+
 APP_PREFIX = ['ATickBegin', 'ATime (0 # 1)', 'ATickEnd', 'ACondEnter', 'AWaitBegin None']
 SYS_PREFIX = ['EWaitBegin None']
 
@@ -100,10 +127,10 @@ def trace_term(r):
     if r['clock'] == 'app':
         return 'app', '[' + '; '.join(APP_PREFIX + [paev(e) for e in r['log']]) + ']'
     if r['clock'] == 'sys':
-        evs = SYS_PREFIX + [pev(e) for e in r['log']]
+        evs = SYS_PREFIX + pevs(r['log'])
         return 'clk', '(KSys, tm_id, [%s])' % '; '.join(evs)
     m = '(mkTM %s %s %s)' % tuple(q(x) for x in r['init_map'])
-    return 'clk', '(KTempo, %s, [%s])' % (m, '; '.join(pev(e) for e in r['log']))
+    return 'clk', '(KTempo, %s, [%s])' % (m, '; '.join(pevs(r['log'])))
 
 
 CLK_CHECKS = ['accepts_quiescent', 'never_early', 'exactly_once+order', 'resched_relative_to_scheduled',
@@ -140,7 +167,7 @@ def diagnose(ctx, kind, term, variant):
         txt = HEADER + 'Definition c : list aevent := %s.\n' % term + \
             body_app(variant, True).replace('Eval vm_compute in bad_idx ok cases.', '') + \
             'Eval vm_compute in chk c.\nEval vm_compute in a_first_reject (ainit %s) c 0.\n' % v
-    rc, out = ctx.coq('diag', txt, timeout=300)
+    rc, out = ctx.coq('diag_%d' % os.getpid(), txt, timeout=300)
     import re
     m = re.search(r'=\s*\[([^\]]*)\]\s*:\s*list bool', out, re.S)
     flags = [x.strip() == 'true' for x in m.group(1).split(';')] if m else None
@@ -153,6 +180,60 @@ def diagnose(ctx, kind, term, variant):
 
 # --------------------------------------------------------------------------- scenarios
 TEMPI = [[1, 2], [1, 1], [2, 1], [4, 1]]
+
+
+def wrap_via(rng, kind, inner):
+    """perform inner from: this client thread, a task of another clock, or the OSC receive path"""
+    vias = ['thread', 'osc', 'aux'] + [v for v in ('sys', 'app') if v != kind]
+    v = rng.choice(vias)
+    if v == 'thread':
+        return inner
+    if v == 'osc':
+        return ['osc_do', inner]
+    return ['via', v, inner]
+
+
+def gen_cross(kind, via, what, idx):
+    """a pending task 3 s (beats at tempo 1) ahead; 100 ms later its deadline is moved ~0.1 s from now -- by a tempo
+    change to 32, by a jump of the beats, or (what = 'sched') another task is scheduled 62.5 ms ahead -- issued from a
+    task running on ANOTHER clock, from the OSC receive path, or from another thread (with / without the main lock).
+    It must run before +1.5 s after the change (oversleep would be ~3 s): load cannot delay a wake-up that long."""
+    inner = {'tempo': ['tempo', 32, 1], 'beats': ['beats_add', 23, 8], 'sched': ['sched', 2, 1, 16]}[what]
+    if via == 'thread':
+        op = inner
+    elif via == 'nolock':
+        op = ['nolock', inner]
+    elif via == 'osc':
+        op = ['osc_do', inner]
+    else:
+        op = ['via', via, inner]
+    task = 2 if what == 'sched' else 1
+    return {'name': '%s-cross-%s-from-%s' % (kind, what, via), 'clock': kind, 'index': idx, 'tempo': [1, 1],
+            'tasks': {'1': {'results': [['none']]}, '2': {'results': [['none']]}},
+            'threads': [[['sched', 1, 3, 1], ['sleep', 100], op]],
+            'final': 'clear', 'wait_for': [task], 'before_final': 2.0, 'after_final': 0.03,
+            'expect_after': {'op': what, 'task': task, 'bound': 1.5}}
+
+
+def gen_cross_all(idx, nolock=False):
+    out = []
+    for via in ['sys', 'app', 'aux', 'osc', 'thread'] + (['nolock'] if nolock else []):
+        for what in ('tempo', 'beats'):
+            idx += 1
+            out.append(gen_cross('tempo', via, what, idx))
+    for kind, vias in (('sys', ['app', 'aux', 'osc']), ('tempo', ['sys', 'app', 'aux', 'osc']), ('app', ['sys', 'aux', 'osc'])):
+        for via in vias:
+            idx += 1
+            out.append(gen_cross(kind, via, 'sched', idx))
+    return out, idx
+
+
+def gen_cancel_via(kind, via, idx):
+    """clear() issued from a task of another clock: nothing that was pending may run after it returned"""
+    return {'name': '%s-clear-from-%s' % (kind, via), 'clock': kind, 'index': idx, 'tempo': [2, 1],
+            'tasks': {'1': {'results': [['none']]}, '2': {'results': [['raise']]}},
+            'threads': [[['sched', 1, 1, 4], ['sched', 2, 1, 4], ['sleep', 30], ['via', via, ['clear']], ['sleep', 450]]],
+            'final': 'clear', 'before_final': 0.0, 'after_final': 0.02, 'cancel_via': True}
 
 
 def gen_stress(rng, kind, idx, heavy=False):
@@ -182,14 +263,19 @@ def gen_stress(rng, kind, idx, heavy=False):
         for _ in range(rng.randint(2, 7 if not heavy else 14)):
             x = rng.random()
             tid = rng.randint(1, ntasks)
-            if x < 0.45:
+            if x < 0.12:
+                ops.append(wrap_via(rng, kind, rng.choice([['sched', tid, rng.randint(0, 6), 64], ['clear']])
+                                    if rng.random() < 0.85 else ['sched', tid, 1, 64]))
+            elif x < 0.45:
                 ops.append(['sched', tid, rng.randint(0, 6), 64])
             elif x < 0.7 and kind != 'app':
                 ops.append(['abs', tid, rng.randint(0, 8), 64])
             elif x < 0.75:
                 ops.append(['clear'])
             elif x < 0.92 and kind == 'tempo':
-                ops.append(['tempo'] + rng.choice(TEMPI))
+                inner = rng.choice([['tempo'] + rng.choice(TEMPI), ['tempo'] + rng.choice(TEMPI),
+                                    ['beats_add', rng.choice([-8, -3, 2, 5, 16]), 64]])
+                ops.append(wrap_via(rng, kind, inner))
             elif x < 0.85 and kind == 'sys':
                 ops.append(['osc'])
             else:
@@ -275,6 +361,11 @@ def program(ctx, rng):
     p1.append(gen_cancel('tempo', idx, 'stop'))
     idx += 1
     p1.append(gen_tempo_ahead(idx))
+    cross, idx = gen_cross_all(idx)
+    p1.extend(cross)
+    for kind, via in (('sys', 'app'), ('tempo', 'sys'), ('app', 'sys')):
+        idx += 1
+        p1.append(gen_cancel_via(kind, via, idx))
     p1.append(dict(WINDOW_SC))
     # singletons are stopped last (their threads cannot be restarted)
     idx += 1
@@ -295,7 +386,8 @@ def program(ctx, rng):
 def run_procs(ctx, procs, proxies=True):
     import threading
     outs = [None] * len(procs)
-    base = 59000 + ctx.rng.randrange(0, 90) * 10
+    # concurrent checks (same seed) must not share ports
+    base = 59000 + ((ctx.rng.randrange(0, 90) + os.getpid() * 7) % 90) * 10
 
     def one(i):
         try:
@@ -336,7 +428,8 @@ def e2e(sc, r):
     aw = r['awakes']
     # a task of the same batch that changes the tempo makes the later tasks of the batch early w.r.t. the NEW map
     # (elapsed_beats is read once per batch, as in sclang): outside the statement, see notes/C08.md
-    retimed = sc['clock'] == 'tempo' and 'tempo' in json.dumps([sc['threads'], [t.get('nested', []) for t in sc['tasks'].values()]])
+    _ops = json.dumps([sc['threads'], [t.get('nested', []) for t in sc['tasks'].values()]])
+    retimed = sc['clock'] == 'tempo' and ('"tempo"' in _ops or '"beats_add"' in _ops)
     for a in aw:
         tid, real, logical, cid, own = a
         lg = float(Fraction(*logical))
@@ -376,6 +469,22 @@ def e2e(sc, r):
         if t0 and (not ran or ran[0] - t0[0] > 1.0):
             v.append(('no_oversleep', 'task scheduled 62.5 ms ahead of a head sleeping until +2 s %s'
                       % ('ran %.3f s later' % (ran[0] - t0[0]) if ran else 'did not run within 1 s')))
+    xa = sc.get('expect_after')
+    if xa:
+        kinds = {'tempo': ('tempo',), 'beats': ('beats_add',), 'sched': ('delta',)}[xa['op']]
+        done = [s[5] for s in r['scheds'] if s[2] in kinds and (xa['op'] != 'sched' or s[1] == xa['task'])]
+        ran = [a[1] for a in aw if a[0] == xa['task']]
+        if done and (not ran or ran[0] - done[0] > xa['bound']):
+            v.append(('no_oversleep', '%s: the clock slept until +3 s; %s issued by %s 100 ms later makes task %d due ~0.1 s '
+                      'later: %s' % (sc['name'], xa['op'], [s[0] for s in r['scheds'] if s[2] in kinds][-1], xa['task'],
+                                     ('it ran %.3f s after the change' % (ran[0] - done[0])) if ran
+                                     else 'it did not run within %.1f s' % xa['bound'])))
+    if sc.get('cancel_via'):
+        done = [s[5] for s in r['scheds'] if s[2] == 'clear' and str(s[0]).startswith('via')]
+        late = sorted(a[0] for a in aw if done and a[1] > done[0])
+        if late:
+            v.append(('clear_stop_cancel_all', '%s: tasks %s ran after clear() (called from a task of another clock) had returned'
+                      % (sc['name'], late)))
     if sc.get('tempo_ahead'):
         t0 = [s[4] for s in r['scheds'] if s[1] == 1]
         ran = [a[1] for a in aw if a[0] == 1]
@@ -421,6 +530,14 @@ def correspond(ctx):
                         (':' + e[3][0] if e[1] == 'awake_end' else ''))
             if any(e[1] in ('pop',) for e in r['log']):
                 c.nontriv((sc['name'], json.dumps(r['log'])))
+            xa = sc.get('expect_after')
+            if xa:
+                kinds = {'tempo': ('tempo',), 'beats': ('beats_add',), 'sched': ('delta',)}[xa['op']]
+                who = [x[0] for x in r['scheds'] if x[2] in kinds and (xa['op'] != 'sched' or x[1] == xa['task'])]
+                c.count('cross:%s issued by %s' % (xa['op'], who[0] if who else 'NOBODY (not exercised)'))
+            for x in r['scheds']:
+                if x[2] in ('tempo', 'beats_add'):
+                    c.count('retime by ' + str(x[0]).rstrip('0123456789'))
             if r['errors'] or r['problems']:
                 c.failures.append(Failure('correspondence', 'scenario %s: %s %s' % (sc['name'], r['errors'][:3], r['problems'][:3]),
                                           replay={'scenario': sc, 'errors': r['errors'], 'problems': r['problems']}))
@@ -468,7 +585,7 @@ def correspond(ctx):
             ('app', app_items, app_meta, body_app(variant, variant == 'flag'), APP_CHECKS)):
         if not items:
             continue
-        bad, errors = fw.check_shards(ctx, 'c08_' + name, HEADER, items, body, shard=6, timeout=900)
+        bad, errors = fw.check_shards(ctx, 'c08_%s_%d' % (name, os.getpid()), HEADER, items, body, shard=6, timeout=900)
         for e in errors:
             c.failures.append(Failure('correspondence', 'coq evaluation failed: ' + e[-1500:]))
         for i in bad:
@@ -519,6 +636,8 @@ def search(ctx, failures):
         scs.append(gen_cancel(kind, idx, 'clear'))
     idx += 1
     scs.append(gen_tempo_ahead(idx))
+    cross, idx = gen_cross_all(idx, nolock=True)
+    scs.extend(cross)
     found, seen = [], set()
     for f in failures:
         sc = f.replay.get('scenario') if isinstance(f.replay, dict) else None
